@@ -21,7 +21,7 @@ func c25id(k int) ids.ID { return ids.ID{byte(k + 1), 0xee} }
 // up to `ids` IDs with symbolic non-zero 64-bit expiries (equal expiries share a bucket); after every operation the
 // membership answers (Any per ID, Contains over all IDs) are compared with the reference set.
 func VerifC25EMap() {
-	maxOps := verifParam("maxOps", 5, 7)
+	maxOps := verifParam("maxOps", 5, 6)
 	nids := verifParam("ids", 3, 4)
 	batchAdds := verifParam("batchAdds", 0, 1)
 	e := NewEMap[*c25Item]()
